@@ -383,3 +383,62 @@ func TestPropDiagnostics(t *testing.T) {
 
 var _ = context.Background
 var _ = os.Getenv
+
+// ---------------------------------------------------------------------------
+// (c') worlds that must fail by themselves: no allowed version, a relative
+// dependency leaving its package, a finder reporting an error.
+
+var subWorldErrors = ev.Register("worlderrors", func(w world.World) error {
+	exp := world.Reference(w, nFinders)
+	if exp.Error == "" {
+		ev.Label("reference-predicts-success")
+		return nil
+	}
+	if exp.Ambiguous {
+		return nil
+	}
+	arena, cleanup := fsx.Scratch("c12e-")
+	defer cleanup()
+	h := world.NewHarness(w, nFinders)
+	run, err := world.Start(h, filepath.Join(arena, "bundle"))
+	if err != nil {
+		return fmt.Errorf("harness: %v", err)
+	}
+	ev.NonTrivial(w, "world-that-must-fail")
+	// with and without a tracer: reporting must not depend on it
+	ctx := h.Context([]string{"full", "none", "partial:512"}[len(w.Script)%3])
+	failedAt := -1
+	for i, c := range w.Script {
+		res := run.DoCall(ctx, c)
+		if failedAt >= 0 {
+			if res.Panicked == nil {
+				return fmt.Errorf("Add call %d accepted after call %d had reported an error", i, failedAt)
+			}
+			continue
+		}
+		if res.Panicked != nil {
+			return fmt.Errorf("Add call %d panicked: %v", i, res.Panicked)
+		}
+		if res.Diags.HasErrors() {
+			failedAt = i
+		}
+	}
+	if failedAt < 0 {
+		run.Close()
+		return fmt.Errorf("the build must fail (%s), but no Add call reported an error; Close gave bundle=%v err=%v", exp.Error, run.Bundle != nil, run.CloseErr)
+	}
+	run.Close()
+	if run.ClosePanic == nil {
+		return fmt.Errorf("Close returned (bundle=%v, err=%v) after a failed build (%s)", run.Bundle != nil, run.CloseErr, exp.Error)
+	}
+	if b, err := sourcebundle.OpenDir(run.Target); err == nil && b != nil {
+		return fmt.Errorf("the target directory of a failed build (%s) opens as a bundle", exp.Error)
+	}
+	return nil
+})
+
+func TestPropWorldErrors(t *testing.T) {
+	ev.Check(t, subWorldErrors, func(t *rapid.T) world.World {
+		return world.Gen(t, world.Config{MaxRemotes: 3, MaxRegistry: 2, NFinders: nFinders, ErrorDeps: true, Diags: rapid.Bool().Draw(t, "diags")})
+	})
+}
